@@ -259,4 +259,8 @@ def load_findings():
             if fn.endswith('.json'):
                 with open(os.path.join(d, fn)) as f:
                     res += json.load(f).get('findings', [])
-    return res
+    # one entry per (property, id): the staging file wins over the merged copy
+    uniq = {}
+    for f in res:
+        uniq[(f['property'], f['id'])] = f
+    return list(uniq.values())
